@@ -86,7 +86,7 @@ crash     (--profile c09; --cases N = number of histories, default 4 quick / 40 
   --commit-points N   kills 0..3 ms after `note committing` per history (default 8 / 30)
 
 faults
-  --part sweep|mapsize|tmpdir|fdcheck|all   (default all)
+  --part sweep|mapsize|mapsweep|tmpdir|fdcheck|all   (default all)
   --cases N           cases (sweep, tmpdir) / histories (mapsize: x 12 map sizes) of the part
   --builds N          builds of the fdcheck ledger (default 300 quick, 3000 thorough)
 
